@@ -60,7 +60,7 @@ class Lazy(Machine):
                        "fancy_with_duplicates", "empty_list_op", "landmark_attached_lazily",
                        "per_element_map", "negative_index", "index_out_of_range", "numpy_index",
                        "depth_ge_4", "interleaved_videos", "truncated_read_raises", "mixed_video_instrumented",
-                       "read_folder_backed", "caller_list_mutated_after_use", "fancy_one_shot_iterable")
+                       "read_folder_backed", "caller_list_mutated_after_use", "fancy_one_shot_iterable", "partial_iteration")
 
     @classmethod
     def swarm(cls, rng, tier):
@@ -113,7 +113,7 @@ class Lazy(Machine):
         elif k == "add_plain":
             op.update(n=rng.randrange(0, 4))
         elif k == "iterate":
-            op.update(rev=rng.randrange(3))
+            op.update(rev=rng.randrange(3), part=rng.choice([-1, -1, 0, 1, 2, 3]))
         elif k == "mutate_arg":
             op.update(k=rng.randrange(16), how=rng.randrange(4))
         return op
@@ -665,6 +665,13 @@ class Lazy(Machine):
         self.ctx.require(not ev and not fs and not ff, "lazy", "evaluation_during_caller_list_edit")
 
     def _op_iterate(self, op, ll, model):
+        if op.get("part") is not None and op["part"] >= 0:
+            # partial iteration: only the consumed elements may be evaluated (k == 0: iter() alone evaluates nothing)
+            import itertools as _it
+            k = min(op["part"], len(model))
+            self.ctx.probe("partial_iteration")
+            self._read("iterate_first_%d" % k, ll, list(model[:k]), lambda: list(_it.islice(iter(ll), k)))
+            return
         if op["rev"] % 3 == 0:
             self._read("reversed", ll, list(reversed(model)), lambda: list(reversed(ll)))
         else:
